@@ -238,7 +238,7 @@ func (e *Engine) constVal(c constant.Value, t types.Type) Val {
 				return e.constVal(i, t)
 			}
 		}
-		return Val{T: e.sc.fresh("float", "Int"), Ty: t}
+		return Val{T: e.floatConst(c.ExactString()), Ty: t}
 	}
 	return Val{T: e.sc.fresh("const", e.sortOf(t)), Ty: t}
 }
@@ -786,6 +786,16 @@ func (env *Env) call(x *Expr) Val {
 		f := e.sc.declFun("bval", []string{"(Array Int " + e.sortOf(sl.Elem()) + ")", "Int", "Int"}, "Int")
 		c := e.elemComp(sl.Elem())
 		return Val{T: fmt.Sprintf("(%s (select %s (s_arr %s)) (s_off %s) (s_len %s))", f, e.get(env.st, c), a.T, a.T, a.T), Ty: mathInt}
+	case "flt", "fle":
+		// the engine's (uninterpreted) order on float values: flt(a, b) is what the Go expression a < b evaluates to
+		a, b := env.tr(x.Args[0]), env.tr(x.Args[1])
+		f := e.sc.declFun(x.Name, []string{"Int", "Int"}, "Bool")
+		return Val{T: "(" + f + " " + a.T + " " + b.T + ")", Ty: boolT}
+	case "fconst":
+		if x.Args[0].Op != "str" {
+			sfail("fconst needs a string literal")
+		}
+		return Val{T: e.floatConst(x.Args[0].Name), Ty: types.Typ[types.Float64]}
 	case "funcref":
 		// funcref("pkg/path.Name"): the constant a function value of that name evaluates to
 		if x.Args[0].Op != "str" {
@@ -1276,4 +1286,9 @@ func (env *Env) specFunc0(name string) (*SpecFunc, bool) {
 		}
 	}
 	return found, found != nil
+}
+
+// one constant per float literal (keyed by its exact text), so that equal literals are equal terms
+func (e *Engine) floatConst(exact string) string {
+	return e.sc.decl("fconst$"+exact, "Int")
 }
